@@ -770,9 +770,11 @@ fn run_schedules(report: &Report, total: &mut Stats, q: bool) {
                 st
             }).reduce(Stats::default, |mut a, b| { a.merge(b); a });
             report.section(json!({"precision_schedule": stringify!($f), "data_strings": $datas.len(), "cases": st.cases, "restored": st.continuations}));
-            if st.continuations == 0 && st.bad.is_empty() {
-                panic!("HARNESS: precision schedule {} is vacuous (no case reaches the end of the schedule): data too short for this state width", stringify!($f));
-            }
+            // a schedule in which no case reaches its end decides nothing: a required counter, so that a run without
+            // violations elsewhere exits 2 (vacuous) — while a change that makes every case of the schedule end in a
+            // documented error still lets the other parts of the check speak
+            report.require(concat!("precision_schedule_", stringify!($f), "_cases_restored"));
+            report.count(concat!("precision_schedule_", stringify!($f), "_cases_restored"), st.continuations + st.bad.len() as u64);
             total.merge(st);
         }};
     }
